@@ -49,7 +49,41 @@ func outcomeClass(c *Case, rec Rec) string {
 	return "fail-after-reply"
 }
 
+// nearReserved: a custom key that only resembles a protocol-reserved one.
+func nearReserved(k string) bool {
+	k = strings.ToLower(k)
+	for _, p := range []string{"grpc-", "content-type", "te-", "user-agent-"} {
+		if strings.HasPrefix(k, p) {
+			if _, exact := reservedForged[k]; !exact {
+				return true
+			}
+		}
+	}
+	return false
+}
+
+var nearReservedNames = []string{"grpc-foo", "grpc-foo-bin", "grpc-statusx", "grpc-c14-tag", "grpc-messages", "content-typex", "te-x", "user-agent-x"}
+
+func nearReservedSet(tag string) []KV {
+	var out []KV
+	names := nearReservedNames
+	if tag == "trailer" {
+		names = []string{"grpc-bar", "grpc-bar-bin", "grpc-statuses", "grpc-c14-trailer", "grpc-message-id", "content-typey", "te-y", "user-agent-y"}
+	}
+	for i, n := range names {
+		v := [][]byte{[]byte(fmt.Sprintf("%s value %d", tag, i))}
+		if isBinKey(n) {
+			v = [][]byte{{0, 0xff, byte(i), 0x80}, []byte(tag)}
+		}
+		out = append(out, KV{K: n, V: v})
+	}
+	return out
+}
+
 func nameClass(n string) string {
+	if nearReserved(n) {
+		return "name-near-reserved"
+	}
 	lower, upper, punct := false, false, false
 	for i := 0; i < len(n); i++ {
 		b := n[i]
@@ -374,6 +408,11 @@ func check14(c *Case, o *Obs, rec Rec) (vs []viol, inconclusive string) {
 					call = how
 				}
 				kc = "md-" + sc.Mutate + "-after-" + call
+			}
+			if nearReserved(kv.K) {
+				kc = "near-reserved-key"
+			} else if sc.MDAfterCtx {
+				kc = "set-after-ctx-done"
 			}
 			if obsName == "header" && oc == "ok-no-message" {
 				// a successful call that sent no message: one class whatever
@@ -832,6 +871,26 @@ func RunC14(r *mon.Run) {
 				g.inCase(p.proto, method, hdrs, "random")
 			}
 		}
+		// custom names that only resemble reserved ones (grpc-foo, content-typex, te-x ...)
+		for _, p := range inProtos {
+			for rep := 0; rep < 2; rep++ {
+				var hdrs []HdrSpec
+				for i, n := range nearReservedNames {
+					name := n
+					if p.wide && rep == 1 {
+						name = strings.ToUpper(n[:1]) + n[1:len(n)/2] + strings.ToUpper(n[len(n)/2:])
+					}
+					h := HdrSpec{Name: name, Padded: p.wide && rep == 1}
+					if isBinKey(n) {
+						h.Vals = [][]byte{{0, 0xff, byte(i), 0x80}, {'p'}}
+					} else {
+						h.Vals = [][]byte{[]byte(fmt.Sprintf("near %d", i)), []byte("second")}
+					}
+					hdrs = append(hdrs, h)
+				}
+				g.inCase(p.proto, []string{"Echo", "SS"}[rep], hdrs, "near-reserved-names")
+			}
+		}
 		// hop-by-hop headers of HTTP/1 fronts: never metadata, and every other
 		// header still arrives
 		hopSets := [][][2]string{
@@ -1018,6 +1077,20 @@ func RunC14(r *mon.Run) {
 					}
 				}
 			}
+			// header and trailer keys that only resemble reserved ones
+			for _, oc := range outcomes {
+				if singleReply(v.method) && oc.replies > 0 && oc.code != 0 {
+					continue
+				}
+				for _, send := range []bool{false, true} {
+					c := mk(oc)
+					c.Class = "near-reserved-names"
+					c.Script.Hdr = nearReservedSet("header")
+					c.Script.Trl = nearReservedSet("trailer")
+					c.Script.SendHdr = send
+					g.exec(c)
+				}
+			}
 			// a trailer key that is also a header key
 			for _, oc := range outcomes {
 				if singleReply(v.method) && oc.replies > 0 && oc.code != 0 {
@@ -1069,6 +1142,32 @@ func RunC14(r *mon.Run) {
 							g.exec(c)
 						}
 					}
+				}
+			}
+		}
+	}
+
+	// metadata attached after the call's deadline has fired (raw clients: only
+	// the grpc-timeout header is small): the debug trailer next to a
+	// DeadlineExceeded must still reach the wire
+	for _, p := range []string{"grpc-raw", "grpc-h2c", "grpcweb", "grpcweb-text", "grpcweb-sock", "grpcweb-text-sock"} {
+		for _, mv := range []struct {
+			method  string
+			replies int
+		}{{"Echo", 0}, {"SS", 0}, {"SS", 1}, {"SS", 3}} {
+			for _, code := range []uint32{4, 5} { // (a reply after the deadline cannot be sent: failing calls only)
+				for i := 0; i < r.Pick(2, 10); i++ {
+					c := &Case{Kind: "C14out", Proto: p, Codec: "proto", Method: mv.method, Class: "metadata-after-ctx-done",
+						Script: Script{Code: code, Msg: "metadata case", Replies: mv.replies, WaitCtx: true, MDAfterCtx: true}}
+					if code == 0 && mv.replies == 0 {
+						c.Script.Replies = 1
+					}
+					used := map[string]bool{}
+					if c.Script.Replies == 0 {
+						c.Script.Hdr = genOutSet(rng, 1+rng.Intn(3), used) // SetHeader: still before the first reply
+					}
+					c.Script.Trl = genOutSet(rng, 1+rng.Intn(3), used)
+					g.exec(c)
 				}
 			}
 		}
